@@ -76,4 +76,11 @@ CANARIES = [
          edits=[('crates/anemo/src/network/mod.rs', """        self.connection_manager_handle.is_closed()""", """        self.connection_manager_handle.is_closed() && false""")]),
     dict(id='ap-public-dial-forgets-identity', unit=U, what='the public dial-with-identity call does not pass the identity on', expect=['Network::connect_with_peer_id::asks_for_exactly_that_identity'],
          edits=[('crates/anemo/src/network/mod.rs', "        self.0.connect(addr.into(), Some(peer_id)).await", "        let _ = peer_id;\n        self.0.connect(addr.into(), None).await")]),
+    dict(id='ap-public-listing-empty', unit=U, what='the public listing is always empty', expect=['Network::peers::is_the_connected_set'],
+         edits=[('crates/anemo/src/network/mod.rs', """    pub fn peers(&self) -> Vec<PeerId> {
+        self.0.peers()""", """    pub fn peers(&self) -> Vec<PeerId> {
+        let _ = self.0.peers();
+        Vec::new()""")]),
+    dict(id='ap-inner-listing-of-a-dead-network', unit=U, what='a network that is gone still lists a peer', expect=['NetworkInner::peers::closed_network_lists_nobody'],
+         edits=[('crates/anemo/src/network/mod.rs', "            .unwrap_or_default()\n    }\n\n    fn known_peers", "            .unwrap_or(vec![PeerId([0; 32])])\n    }\n\n    fn known_peers")]),
 ]
